@@ -33,12 +33,12 @@ theorem hlyReach_true (c : SubCtx) : ∀ (fuel k0 tmp n : Nat),
 /-- `fillHly` past its entry checks -/
 theorem fillHly_eq (r : Rule) (p : Inst) (n k : Nat) (hr : WfRule r) (hp : WfInst p) (hcap : capNti r n = some k) :
     fillHly r p n =
-      if !posPickAnyP r.pos ((makeEnum p r).M.length * (makeEnum p r).S.length) then some [] else
+      if !posPickAnyP r.pos ((subEnum p r).M.length * (subEnum p r).S.length) then some [] else
       match hlyReach (mkSubCtx r p k) 24 0 (seedT p).H with
       | none => none
       | some false => some []
       | some true =>
-        (hlyLoop (mkSubCtx r p k) (makeEnum p r).timesMS (hlyFuel p.y) p.y p.m p.d (seedT p).H
+        (hlyLoop (mkSubCtx r p k) (subEnum p r).timesMS (hlyFuel p.y) p.y p.m p.d (seedT p).H
           (ymdGetWday p.y p.m p.d) (ymdGetYd p.y p.m p.d) (getNdom p.y p.m) (maxyOf p.y) 0 []).map List.reverse := by
   obtain ⟨hy1, hy2⟩ := hp.year
   obtain ⟨hm1, hm2⟩ := hp.month
@@ -65,9 +65,9 @@ theorem habsOf_seedT (p : Inst) (hp : WfInst p) : habsOf (seedT p) = hcabs p.y p
 
 /-- the minutes the hourly filler enumerates -/
 theorem enum_M (r : Rule) (p : Inst) (hr : WfRule r) (hp : WfInst p) :
-    (makeEnum p r).M = if r.M = [] then [(seedT p).M] else r.M := by
+    (subEnum p r).M = if r.M = [] then [(seedT p).M] else r.M := by
   have hs := wf_M_lt p hp
-  show (if r.M.isEmpty then [p.M % 256] else r.M.map (· % 256)) = _
+  rw [(subEnum_eq r p).1]
   by_cases h : r.M = []
   · rw [if_pos h, h, (seedT_MS p hp).1]
     have : p.M % 256 = p.M := Nat.mod_eq_of_lt (by omega)
@@ -79,7 +79,7 @@ theorem enum_M (r : Rule) (p : Inst) (hr : WfRule r) (hp : WfInst p) :
     exact map_mod_id r.M hr.mins.2
 
 theorem minExp_iff (r : Rule) (p : Inst) (hr : WfRule r) (hp : WfInst p) (x : Inst) :
-    minExp r (seedT p) x ↔ x.M ∈ (makeEnum p r).M := by
+    minExp r (seedT p) x ↔ x.M ∈ (subEnum p r).M := by
   rw [enum_M r p hr hp]
   unfold minExp
   by_cases h : r.M = []
@@ -117,7 +117,7 @@ theorem fillHly_good (r : Rule) (p : Inst) (n : Nat) (l : List Inst) (hr : WfRul
     split at h
     · cases h
     · cases h; intro x hx; cases hx
-    · cases hloop : hlyLoop (mkSubCtx r p k) (makeEnum p r).timesMS (hlyFuel p.y) p.y p.m p.d (seedT p).H
+    · cases hloop : hlyLoop (mkSubCtx r p k) (subEnum p r).timesMS (hlyFuel p.y) p.y p.m p.d (seedT p).H
           (ymdGetWday p.y p.m p.d) (ymdGetYd p.y p.m p.d) (getNdom p.y p.m) (maxyOf p.y) 0 [] with
       | none => rw [hloop] at h; cases h
       | some acc' =>
@@ -168,7 +168,7 @@ theorem idx_lt (iM iS a b : Nat) (h1 : iM < a) (h2 : iS < b) : iM * b + iS < a *
 theorem fillHly_complete_pick (r : Rule) (p : Inst) (n cap : Nat) (l : List Inst) (hr : WfRule r) (hp : WfInst p)
     (hy : 1901 ≤ p.y) (hcap : capNti r n = some cap) (h : fillHly r p n = some l)
     (x : Inst) (hx : HourlyInst r (seedT p) x)
-    (hpk : ∀ t ∈ (makeEnum p r).timesMS, t.2.2.1 = x.M → t.2.2.2 = x.S → pickH r p t = true)
+    (hpk : ∀ t ∈ (subEnum p r).timesMS, t.2.2.1 = x.M → t.2.2.2 = x.S → pickH r p t = true)
     (hge : absOf (seedT p) ≤ absOf x) (hu : ltP r.untl x = false) (hxy : x.y ≤ 2099) :
     x ∈ l ∨ (l.length = cap ∧ ∀ z ∈ l, ltP z x = true) := by
   obtain ⟨hv, hxms⟩ := inst_vt r _ x hx hxy
@@ -198,10 +198,10 @@ theorem fillHly_complete_pick (r : Rule) (p : Inst) (n cap : Nat) (l : List Inst
       omega
   have hxp := ge_seed p x hp hy hy2 hv (by rw [hxms, tms]) hge
   have hci := ctx_inter r p cap hr
-  obtain ⟨iM, iS, hent, hiM, hiS⟩ := entry_of (makeEnum p r) x.M x.S hxm hxs
+  obtain ⟨iM, iS, hent, hiM, hiS⟩ := entry_of (subEnum p r) x.M x.S hxm hxs
   -- some position is picked
-  have hany : posPickAnyP r.pos ((makeEnum p r).M.length * (makeEnum p r).S.length) = true :=
-    posAny_of _ (iM * (makeEnum p r).S.length + iS) _ (idx_lt _ _ _ _ hiM hiS) (hpk _ hent rfl rfl)
+  have hany : posPickAnyP r.pos ((subEnum p r).M.length * (subEnum p r).S.length) = true :=
+    posAny_of _ (iM * (subEnum p r).S.length + iS) _ (idx_lt _ _ _ _ hiM hiS) (hpk _ hent rfl rfl)
   -- the search for an hour succeeds
   have hreach : hlyReach (mkSubCtx r p cap) 24 0 (seedT p).H = some true := by
     have hv' := hv
@@ -215,7 +215,7 @@ theorem fillHly_complete_pick (r : Rule) (p : Inst) (n cap : Nat) (l : List Inst
     exact fun h0 => (t_hour r p cap hr x hv).mp h0 l3
   rw [fillHly_eq r p n cap hr hp hcap, hany, hreach] at h
   simp only [Bool.not_true, Bool.false_eq_true, if_false] at h
-  cases hloop : hlyLoop (mkSubCtx r p cap) (makeEnum p r).timesMS (hlyFuel p.y) p.y p.m p.d (seedT p).H
+  cases hloop : hlyLoop (mkSubCtx r p cap) (subEnum p r).timesMS (hlyFuel p.y) p.y p.m p.d (seedT p).H
       (ymdGetWday p.y p.m p.d) (ymdGetYd p.y p.m p.d) (getNdom p.y p.m) (maxyOf p.y) 0 [] with
   | none => rw [hloop] at h; cases h
   | some acc' =>
